@@ -143,7 +143,7 @@ CLAIMED = {
         technique=ABSINT.replace(" over an interval-region x symbolic-term domain", "") + " over coordinate subsets and names",
         text="Evaluation and five derivative routes are interpreted on expressions whose variables are fully "
              "supplied (with extra coordinates; differentiation variable absent when it does not occur): never "
-             "CoordinateMissing; on every proper subset of the variables: never a number; bare numbers and Derivative "
+             "CoordinateMissing; on every proper subset of the variables (evaluation) and at every point lacking one occurring variable (every derivative route, whichever the differentiation variable): never a number; bare numbers and Derivative "
              "accepted exactly for <= 1 variable; recorded variable sets equal the mentioned variables; legal names "
              "that collide with the library's own parameter names are used as coordinate names through every entry.",
         note="Bounded set of expressions and names. Coordinates valued None are outside 'finite points'.",
@@ -207,7 +207,7 @@ CLAIMED = {
              "(keyed stores, set/dict building, order-free consumers); ordered lists, argument lists, joins, "
              "accumulation and positional choice are violations; hash()/id() only inside __hash__; no clock/random/"
              "environment imports. A battery of four-variable expressions is additionally interpreted under four "
-             "set-iteration orders x three coordinate orders: all numeric and symbolic results must be identical.",
+             "set-iteration orders x three coordinate orders: all numeric and symbolic results, and the outcomes of ==, != and hash agreement against a fixed spelling of the same point, must be identical.",
         note="Bit-for-bit determinism of CPython floats/libm on one machine is assumed. Point.__repr__ echoes the "
              "coordinate order as written (C13) and is exempt.",
         ref="4/C18"),
